@@ -209,10 +209,12 @@ def warm_up(exclude=None):
     import musicxml.xsd.xsdsimpletype as ST
     for tn in sorted(lib.MODEL['simple']):
         cls = getattr(ST, simple_class_name(tn), None)
-        if cls is None or tn == exclude:
+        if cls is None or tn == exclude or (isinstance(exclude, (set, frozenset, list, tuple)) and tn in exclude):
             continue
         try:
-            cls(_WARM[tn] if tn in _WARM else lex.Lex(refmodel.resolve_simple(lib.MODEL, tn)).sample_value())
+            if tn not in _WARM:
+                _WARM[tn] = lex.Lex(refmodel.resolve_simple(lib.MODEL, tn)).sample_value()
+            cls(_WARM[tn])
         except Exception:
             pass
 
